@@ -276,7 +276,7 @@ pub fn explore_tapes_capped(files: &BTreeMap<String, String>, bound: usize, cap:
 
 fn cli_runs(texts: &[(String, String)], n: usize) -> Result<(), String> {
     let cli = std::env::var("OAL_CLI").unwrap_or_else(|_| "/verif/.build/repo/debug/oal-cli".into());
-    let dir = format!("/var/tmp/oalmc-c06-{}-{}", std::process::id(), hash_of(&texts.to_vec()));
+    let dir = format!("/var/tmp/oalmc-c06-{}-{} \u{e9}", std::process::id(), hash_of(&texts.to_vec()));
     let _ = std::fs::remove_dir_all(&dir);
     // Failures of the harness's own file handling are machinery errors, never verdicts.
     std::fs::create_dir_all(&dir).expect("harness: scratch directory");
@@ -362,7 +362,7 @@ fn run_cli_in(dir: &str) -> (Option<i32>, Vec<u8>) {
 }
 
 fn judge_cli_history(ops: &[&'static str], sink: Option<&mut Sink>) -> Outcome {
-    let dir = format!("/var/tmp/oalmc-c06h-{}-{}", std::process::id(), hash_of(&ops.to_vec()));
+    let dir = format!("/var/tmp/oalmc-c06h-{}-{} \u{e9}", std::process::id(), hash_of(&ops.to_vec()));
     let _ = std::fs::remove_dir_all(&dir);
     let _ = std::fs::remove_dir_all(format!("{dir}-saved"));
     std::fs::create_dir_all(&dir).expect("harness: scratch directory");
@@ -486,7 +486,7 @@ fn processor_compile(dir: &str) -> String {
 }
 
 fn judge_processor_history(ops: &[&'static str], frozen: bool, sink: Option<&mut Sink>) -> Outcome {
-    let dir = format!("/var/tmp/oalmc-c06p-{}-{}", std::process::id(), hash_of(&(ops.to_vec(), frozen)));
+    let dir = format!("/var/tmp/oalmc-c06p-{}-{} \u{e9}", std::process::id(), hash_of(&(ops.to_vec(), frozen)));
     let _ = std::fs::remove_dir_all(&dir);
     std::fs::create_dir_all(&dir).expect("harness: scratch directory");
     let mut all: Vec<&'static str> = vec!["compile"];
